@@ -178,7 +178,16 @@ impl LayersData {
     }
 
     pub(crate) fn from_vec(layers: Vec<LayerData>) -> Result<Self> {
-        // TODO: Validate some properties
+        // The first layer cannot be nested inside another layer. `compute_parents`
+        // relies on this to always find a parent candidate.
+        if let Some(first) = layers.first() {
+            if first.child_level != 0 {
+                return Err(AsepriteParseError::InvalidInput(format!(
+                    "First layer has a non-zero child level: {}",
+                    first.child_level
+                )));
+            }
+        }
         let parents = compute_parents(&layers);
         Ok(LayersData { layers, parents })
     }
